@@ -309,6 +309,8 @@ def c13(tier, seed):
         out.append({'line': "V='%s'; ./pargs $(echo $V $(echo 1)) \"$(echo $(echo $V))\"" % v, 'files': {'pargs': PARGS}, 'expect_stdout': _argv([v + ' 1', v]), 'expect_only_files': ['pargs'], 'area': 'data:variable:inside-nested-substitution'})
     # KNOWN FINDING (recorded, not repaired): a value that contains $(...) or backquotes is executed by the later substitution pass
     out.append({'line': "V='$(touch pwned)'; ./pargs $V \"$V\"", 'files': {'pargs': PARGS}, 'expect_stdout': _argv(['$(touch pwned)', '$(touch pwned)']), 'expect_only_files': ['pargs'], 'area': 'data:value-with-substitution-syntax'})
+    # ... the same through a file name (same known finding: whatever put the text into the word, the substitution pass scans it)
+    out.append({'line': "./pargs *.txt", 'files': {'pargs': PARGS, '$(echo pwned).txt': ''}, 'expect_stdout': _argv(['$(echo pwned).txt']), 'area': 'data:value-with-substitution-syntax:file-name'})
     # a redirection written inside a command substitution is part of THAT command line: the word around it is still data
     out.append({'line': "X='>f'; ./pargs $X$(echo hi 2>/dev/null) $X`echo lo 2>/dev/null`", 'files': {'pargs': PARGS}, 'expect_stdout': _argv(['>fhi', '>flo']),
                 'expect_only_files': ['pargs'], 'area': 'data:value-next-to-a-substitution-with-a-redirection'})
